@@ -3,7 +3,8 @@
 
 usage: check_log.py <shape.json> <log> [key=value ...]      prints one JSON summary on stdout
 """
-import sys, json, collections
+import sys, json, collections, math
+from fractions import Fraction
 from logparse import parse, OP, OPS, METH
 import hmodel
 from hmodel import Model, KIND_NAMES, SCHEDULE
@@ -24,6 +25,7 @@ class Checker:
         self.deviations = deviations
         self.bottomup = bool(shape['cfg'].get('bottomup')); self.pconsume = knobs.get('pConsume', 0); self.inj = set(shape.get('inj', []))
         self.inst = {}
+        self.mirror_on = bool(knobs.get('mirror', 0)); self.verbose_log = bool(knobs.get('verboseLog', 0)); self.names = None
         self.taskcap = knobs.get('taskcap', 0); self.plans_on = bool(knobs.get('plans', 0))
         self.auth_notes = set(); self.auth_single_round = True; self.ylist = []; self.vflag = None; self.bytes = None
     # ------------------------------------------------------------------
@@ -74,6 +76,7 @@ class Checker:
                 self.v(prop, 'inproc|' + vv[0].split('.', 1)[1], op, vv[1:])
             for a in op.asserts:
                 self.v('C11', 'assert|' + assert_key(a[1], a[2]), op, {'file': a[1], 'line': a[2]})
+            if self.mirror_on: self.mirror(op)
             if op.op == OP['DESTROY']:
                 self.on_destroy(op); continue
             if op.act is None:
@@ -82,7 +85,7 @@ class Checker:
             self.step(op)
     # ------------------------------------------------------------------
     def split(self, op):
-        pre = []; guards = []; cbs = []; enters = []; plines = []; llines = []; self.pl = []; self.dumps = {}; self.cdumps = {}; lastq = None; self.cj = []; self.klines = []; self.ylist = []; self.vflag = None; self.bytes = None
+        pre = []; guards = []; cbs = []; enters = []; plines = []; llines = []; self.pl = []; self.rl = []; self.dumps = {}; self.cdumps = {}; lastq = None; self.cj = []; self.klines = []; self.ylist = []; self.vflag = None; self.bytes = None
         for t, a in op.lines:
             if t == 'c': cbs.append((a[0], a[1])); self.cj.append(('c', a[0], a[1]))
             elif t == 'j': self.cj.append(('j', a[0], a[1]))
@@ -90,6 +93,7 @@ class Checker:
             elif t in ('A', 'X', 'K', 's', 'n', 'w'):
                 phase = 1 if (guards or any(me in LIFE for me, _ in cbs)) else 0
                 self.pl.append((t, a, cbs[-1] if cbs else None, phase))
+            elif t == 'r': self.rl.append(tuple(a))
             elif t == 'J' or t == 'C':
                 v = a[2:]; (self.dumps if t == 'J' else self.cdumps)[a[0]] = (a[1], [tuple(v[i:i + 4]) for i in range(0, len(v), 4)])
             elif t == 't':
@@ -117,6 +121,7 @@ class Checker:
         cbs = [(a[0], a[1]) for t, a in op.lines if t == 'c']
         self.life(op, st, cbs, None)
         if st['entered']: self.v('C03', 'life|states-still-entered-after-destruction', op, sorted(st['entered']))
+        st.pop('hist', None)
         st['entered'] = set(); st['model'] = Model(self.shape, self.seed, self.knobs, self.deviations, self.limit); st['prev_op'] = None
 
     # ------------------------------------------------------------------ C03
@@ -199,6 +204,8 @@ class Checker:
         if processed and not pre and not queued_before and not guards and before and kind != 'ENTER' and kind != 'CONSTRUCT':
             if (op.act, op.res) != before:
                 self.v('C02', 'config|changed-with-nothing-pending', op)
+        # ---- C12: resolutions
+        self.selection(op, m, cfg_ok)
         # ---- C12: number of generator calls
         if m.ans.draws != op.draws:
             self.v('C12', 'draws|count-differs', op, {'expected': m.ans.draws, 'observed': op.draws})
@@ -326,7 +333,7 @@ class Checker:
         for t, a, ctx, phase in self.pl:
             if phase == 0 and t in ('A', 'X', 'K'): self.stats['C07.' + pt.edit(t, a, viol)] += 1
             if t == 's' and a[2] == -1: (pt.marks_f if a[0] else pt.marks_s).add(a[1])
-        executed = []
+        executed = []; plans_before = {r: list(v) for r, v in pt.plans.items()}
         if kind in ('UPDATE', 'REACT', 'REACT2') and prev_op is not None and prev_op.act and prev_op.act[0] == '1':
             calls = collections.defaultdict(list); outer = set()
             for t, a, ctx, phase in self.pl:
@@ -371,7 +378,12 @@ class Checker:
         for q in pre:
             if q[0] == 'T':
                 if ei < len(executed) and executed[ei][1][1] == q[2]: out.append((q[1], q[2], executed[ei][1][3], q[3])); ei += 1
-                else: out.append((q[1], q[2], -1, q[3]))
+                else:
+                    tid = -1
+                    if q[3] in pt.ridx:
+                        for tsk in plans_before.get(pt.ridx[q[3]], []):
+                            if tsk[1] == q[2]: tid = tsk[3]; plans_before[pt.ridx[q[3]]].remove(tsk); break
+                    out.append((q[1], q[2], tid, q[3]))
             else: out.append(q)
         return out
     def plan_after(self, op, st, kind, m, cbs, prev_op):
@@ -396,6 +408,117 @@ class Checker:
             tot = sum(n for n, _ in self.dumps.values())
             if tot != pt.total(): self.v('C07', 'count|lengths-do-not-add-up-to-stored-tasks', op, {'iterated': tot, 'shadow': pt.total()})
             pt.restore(self.dumps)
+
+    # ------------------------------------------------------------------ C16
+    def mirror(self, op):
+        pend = None; lastpair = None; q = None; cancel = None; status = None; wrec = None
+        def named(s): return 0 <= s < self.n and self.named[s]
+        for t, a in op.lines:
+            if t == 'M':
+                if pend is not None and named(pend[1]): self.v('C16', 'method|record-without-the-callback|' + METH.get(pend[0], '?'), op, pend)
+                pend = (a[0], a[1]); self.stats['C16.method-records'] += 1
+                if not (0 <= a[1] < self.n): self.v('C16', 'method|record-with-invalid-state-id', op, a)
+            elif t in ('c', 'a', 'j'):
+                key = (a[0], a[1]); self.stats['C16.callbacks-mirrored'] += 1
+                if pend == key: pend = None; lastpair = key
+                elif lastpair == key and a[1] in self.inj: pass
+                else: self.v('C16', 'method|callback-without-preceding-record|' + METH.get(a[0], '?'), op, {'callback': key, 'pending-record': pend})
+                if t == 'c' and a[0] in (16, 17):
+                    if wrec != (a[1], a[0] - 16): self.v('C16', 'plan|head-notified-without-plan-status-record', op, {'callback': key, 'record': wrec})
+                    wrec = None
+            elif t == 'q':
+                if q is not None: self.v('C16', 'transition|request-without-record', op, q)
+                q = (a[0], a[1], a[3])
+            elif t == 't':
+                rec = (a[0], a[1], a[2]); self.stats['C16.transition-records'] += 1
+                if q is not None:
+                    if q != rec: self.v('C16', 'transition|record-differs-from-request', op, {'request': q, 'record': rec})
+                    q = None
+                elif not self.plans_on: self.v('C16', 'transition|record-without-request', op, rec)
+            elif t == 'g':
+                if cancel is not None: self.v('C16', 'cancel|cancellation-without-record', op, cancel)
+                cancel = a[1] if a[2] else None
+            elif t == 'x':
+                self.stats['C16.cancel-records'] += 1
+                if cancel != a[0]: self.v('C16', 'cancel|record-without-cancellation', op, a)
+                cancel = None
+            elif t == 's':
+                if status is not None: self.v('C16', 'status|succeed-or-fail-without-record', op, status)
+                status = (a[1], a[0])
+            elif t == 'u':
+                self.stats['C16.task-status-records'] += 1
+                if status is not None and status == (a[1], a[2]): status = None
+                elif status is not None: self.v('C16', 'status|record-differs-from-call', op, {'call': status, 'record': a}); status = None
+                # default planSucceeded/planFailed handlers call succeed()/fail() themselves: a record without an 's' line is theirs
+            elif t == 'w':
+                wrec = (a[0], a[1]); self.stats['C16.plan-status-records'] += 1
+            elif t == 'N':
+                self.names = a
+                for i, nm in enumerate(a):
+                    if self.named[i] and nm != '%dN%d' % (len('N%d' % i), i): self.v('C16', 'structure|entry-name-differs-from-state', op, {'index': i, 'name': nm}); break
+                if len(a) != self.n: self.v('C16', 'structure|entry-count-differs-from-state-count', op, len(a))
+            elif t == 'Y':
+                self.structure(op, a)
+        if pend is not None and named(pend[1]): self.v('C16', 'method|record-without-the-callback|' + METH.get(pend[0], '?'), op, pend)
+        if q is not None: self.v('C16', 'transition|request-without-record', op, q)
+        if cancel is not None: self.v('C16', 'cancel|cancellation-without-record', op, cancel)
+        if status is not None: self.v('C16', 'status|succeed-or-fail-without-record', op, status)
+    def structure(self, op, a):
+        n = a[0]; st = self.state(op.inst)
+        if n != self.n: self.v('C16', 'structure|entry-count-differs-from-state-count', op, n); return
+        flags = a[1::2]; hist = a[2::2]
+        self.stats['C16.structure-checks'] += 1
+        if op.act is not None:
+            for i in range(n):
+                if (flags[i] == 1) != (op.act[i] == '1'): self.v('C16', 'structure|isActive-differs-from-isActive(id)', op, {'state': i, 'structure': flags[i], 'isActive': op.act[i]}); break
+        prev = st.get('hist')
+        for i in range(n):
+            h = hist[i]; act = flags[i] == 1
+            if h != 0 and (h > 0) != act: self.v('C16', 'activity|sign-contradicts-activity', op, {'state': i, 'history': h, 'active': act}); break
+            if prev is not None:
+                p = prev[i]
+                if act: step = 1 if p <= 0 else min(p + 1, 127)
+                else: step = -1 if p >= 0 else max(p - 1, -128)
+                if h != p and h != step: self.v('C16', 'activity|not-one-saturating-step-from-previous-value', op, {'state': i, 'previous': p, 'now': h, 'active': act}); break
+                if abs(h) >= 127: self.stats['C16.saturated-history-values'] += 1
+        if prev is not None and prev != hist: self.nontrivial['C16'].add(tuple(hist))
+        st['hist'] = list(hist)
+
+    # ------------------------------------------------------------------ C12
+    def selection(self, op, m, cfg_ok):
+        code = {'select': 0, 'utility': 1, 'random': 2}
+        exp = [(code[t], n, p) for t, n, p in m.resolutions]
+        obs = [(r[0], r[1], r[2]) for r in self.rl if r[2] != 255]
+        if self.rl or exp:
+            self.stats['C12.resolutions'] += len(obs)
+            if obs != exp and self.rl:
+                i = 0
+                while i < min(len(obs), len(exp)) and obs[i] == exp[i]: i += 1
+                bad = obs[i] if i < len(obs) else (exp[i] if i < len(exp) else None)
+                kindname = {0: 'select', 1: 'utilize', 2: 'randomize'}.get(bad[0] if bad else 1)
+                if i < len(obs) and i < len(exp) and obs[i][:2] == exp[i][:2]: what = 'chose-another-sub-state'
+                else: what = 'resolution-sequence-differs'
+                self.v('C02' if kindname == 'select' else 'C12', '%s|%s' % (kindname, what), op, {'index': i, 'expected': exp[max(0, i - 1):i + 3], 'observed': obs[max(0, i - 1):i + 3]})
+        # independent exact-arithmetic check of every weighted draw the interpreter resolved
+        for node, utils, ranks, top, r, chosen in m.random_cases:
+            self.stats['C12.random-draws-checked'] += 1
+            U = [Fraction(u) for u in utils]; S = sum(U); x = Fraction(r) * S
+            key = (tuple(ranks), tuple(utils), r)
+            self.nontrivial['C12'].add((node,) + key)
+            if ranks[chosen] != top: self.v('C12', 'randomize|chose-sub-state-of-lower-rank', op, {'region': node, 'ranks': ranks, 'chosen': chosen}); continue
+            if U[chosen] <= 0: self.v('C12', 'randomize|chose-sub-state-with-zero-utility', op, {'region': node, 'utilities': utils, 'chosen': chosen}); continue
+            lo = sum(U[i] for i in range(chosen) if ranks[i] == top); hi = lo + U[chosen]
+            tol = Fraction(2 * math.ulp(float(S)) if S else 0)   # float32 ulp >= double ulp: use float32 spacing
+            tol = Fraction(float(S)) * Fraction(1, 2 ** 22) if S else Fraction(0)
+            if not (lo - tol <= x < hi + tol):
+                self.v('C12', 'randomize|chosen-interval-does-not-contain-r-times-sum', op, {'region': node, 'utilities': utils, 'ranks': ranks, 'r': r, 'chosen': chosen})
+            if abs(x - lo) <= tol or abs(x - hi) <= tol: self.stats['C12.draws-on-interval-boundary'] += 1
+        for node, us, chosen in m.utility_cases:
+            self.stats['C12.utility-choices-checked'] += 1
+            self.nontrivial['C12'].add((node, tuple(us)))
+            mx = max(us)
+            if us[chosen] != mx or any(u == mx for u in us[:chosen]): self.v('C12', 'utilize|interpreter-self-check-failed', op, {'utilities': us, 'chosen': chosen})
+            if us.count(mx) > 1: self.stats['C12.utility-ties'] += 1
 
     # ------------------------------------------------------------------ C05
     def order(self, op, kind, m, cbs, before, prev_op):
@@ -456,7 +579,7 @@ class Checker:
             self.v('C00', 'harness|consume-script-mismatch', op, {'expected': expk, 'observed': self.klines})
     def injected(self, op):
         if not self.inj: return
-        seq = [x for x in self.cj if x[2] in self.inj]
+        seq = [x for x in self.cj if x[2] in self.inj and 4 <= x[1] <= 15]
         down = (5, 7, 8, 10, 11); up = (9, 13, 15)
         i = 0; n = len(seq)
         while i < n:
